@@ -124,4 +124,12 @@ META.update({
         technique="property-based testing (rapid): generated concurrent programs with the Go race detector, a crash detector and a hang watchdog as oracles",
     ),
 })
+META.update({
+    "C18": dict(
+        text="Property testing of the HTTP and gRPC adapters against real loopback traffic and recording peers. HTTP: generated requests (method, URL, headers, every body kind an http.Request can carry, sizes up to 1 MiB), request and executor context kinds, policy stacks (the package's retry policy, timeout, hedge with and without overlapping attempts, breaker, fallback), both entry points, and a scripted server answer per attempt (statuses, Retry-After, early / chunked / truncated responses, closed connections, a caller that cancels mid-response); the oracle compares every request the server received with the original, the number of attempts with the documented retry rules, Retry-After as a lower bound, the returned response and its fully read body with what the server sent, and the context seen by an inner recording RoundTripper (caller's values and deadline present, done when the caller cancels). gRPC: both interceptors driven directly with recording invokers/handlers: arguments, reply and errors pass through, only UNAVAILABLE / DEADLINE_EXCEEDED / RESOURCE_EXHAUSTED are retried, the context carries the caller's values, deadline, outgoing/incoming metadata and cancellation. Sampling, not proof.",
+        design_ref="DESIGN.md section 6, C18",
+        note="One open finding (D9) is excluded by construction, counted, and reproduced separately. The inner transport disables keep-alives so that net/http's own transparent re-sends do not count as attempts. gRPC is exercised at the interceptor boundary, not over a network connection.",
+        technique="property-based testing (rapid): round-trip / differential oracle (request received == request sent, response returned == response served) over generated requests, contexts, policy stacks and server scripts",
+    ),
+})
 NOT_APPLICABLE = [dict(property_id=p, reason="check not built yet in this session (work in progress; DESIGN.md section 6 describes the planned property-based check)") for p in ALL if p not in META]
